@@ -808,6 +808,51 @@ func writerCase(r *Rng, rep *Report, t *tmp, c int) (string, string) {
 
 // ---------------------------------------------------------------- driver
 
+// bigChunkSweep: C20 quantifies over format-conformant files "of whatever chunk size the header states"
+// (4 KiB to several MiB).  Files of that size cannot be evaluated inside Coq byte by byte (the theorem
+// C20_reader_total_on_spec covers every chunk size in the model), so this sweep is a direct oracle only:
+// harness-crafted conformant files with chunk sizes 4 KiB, 64 KiB+1, 1 MiB+1, 2 MiB and 3 MiB+5 (four of them per shard), three chunks,
+// frames from both zstd libraries, read through both real readers and both libraries at aligned and
+// unaligned offsets; every read must deliver data[off:].
+func bigChunkSweep(r *Rng, rep *Report, t *tmp) {
+	for _, cs := range []int64{4096, 65537, 1<<20 + 1, 2 << 20, 3<<20 + 5}[r.Intn(2):][:4] {
+		nch := int64(3)
+		n := (nch-1)*cs + 1 + int64(r.Intn(int(cs)))
+		data := bigData(r, n)
+		h := &hdr{magic: casblob.VerifSkippableFrameMagicNumber, usize: n, comp: 1, chunk: uint32(cs), num: nch + 1}
+		hs := int64(29 + 8*(nch+1))
+		h.frame = uint32(hs - 8)
+		var body []byte
+		off := hs
+		for i := int64(0); i < nch; i++ {
+			fr := impls[r.Intn(2)].EncodeAll(data[i*cs:min(n, (i+1)*cs)], nil)
+			h.offsets = append(h.offsets, off)
+			off += int64(len(fr))
+			body = append(body, fr...)
+		}
+		h.offsets = append(h.offsets, off)
+		path := t.file(append(h.bytes(), body...))
+		for _, o := range []int64{0, 1, cs, cs + 1, 2*cs + 7, n - 1} {
+			for wi, impl := range impls {
+				ctx := fmt.Sprintf("conformant file: chunk size %d, 3 chunks, logical size %d; read at offset %d with zstd library %s", cs, n, o, implNames[wi])
+				ou := readThrough(false, impl, path, n, o)
+				oz := readThrough(true, impl, path, n, o)
+				rep.Evaluations += 2
+				rep.Count("reader.bigchunk")
+				if !ou.ok || !bytes.Equal(ou.data, data[o:]) {
+					rep.Fail(0, "uncompressed read of a conformant file with a large chunk size differs from data[off:]: "+ou.class, ctx)
+				}
+				if !oz.ok {
+					rep.Fail(0, "zstd read of a conformant file with a large chunk size failed: "+oz.class, ctx)
+				} else if dec, err := decodeStream(impls[1-wi], oz.data); err != nil || !bytes.Equal(dec, data[o:]) {
+					rep.Fail(0, fmt.Sprintf("zstd read of a conformant file with a large chunk size does not decode to data[off:] (%v)", err), ctx)
+				}
+			}
+		}
+		_ = os.Remove(path)
+	}
+}
+
 func driver(seed uint64, n int, outV, outJSON string, args []string) {
 	for _, nm := range implNames {
 		im, err := zstdimpl.Get(nm)
@@ -835,6 +880,7 @@ func driver(seed uint64, n int, outV, outJSON string, args []string) {
 	}
 	defer os.RemoveAll(dir)
 	t := &tmp{dir: dir}
+	bigChunkSweep(r, rep, t)
 	var cases []string
 	for c := 0; c < n; c++ {
 		var term, text string
